@@ -39,6 +39,25 @@
 (*                 .value IS (identity) the AsyncResult number val[1] of   *)
 (*                 this run -- a token distinct from whatever that result  *)
 (*                 holds or will hold).                                    *)
+(*   Mut(k)        WhenAll / WhenAny: after the call the caller mutated    *)
+(*                 the very list object it had passed (k = "clear", "pop", *)
+(*                 "append", "reverse", "replace", "insert0", "refill"...).*)
+(*                 "The inputs" of the statement are the results passed AT *)
+(*                 THE CALL: the event changes nothing in this machine, so *)
+(*                 every later observation is still judged against them.   *)
+(*   Reg / RunC / ObsC (acomb = "Reentrant")  re-entrant registration: any *)
+(*                 number of ContinueWith / Map / Unwrap calls in one run, *)
+(*                 numbered c = 1, 2, ... in the order they are made, each *)
+(*                 on a source src (1..an, or 0 = the shared, already      *)
+(*                 complete AsyncResult.Complete() whose value is None),   *)
+(*                 made by the driver (by = 0) or from INSIDE the          *)
+(*                 continuation / mapped function of registration `by`     *)
+(*                 while it runs.  Reg(c, src, kind, by) is logged just    *)
+(*                 before the call, RunC(c, ...) when the function of c    *)
+(*                 runs, ObsC(c, ...) = observation of the result of c at  *)
+(*                 a quiescent point.  Each registration is judged on its  *)
+(*                 own by the same sentences as a single call: who         *)
+(*                 registered it, and from where, is irrelevant.           *)
 (*   Reset(comb,n) (thorough tier only) the trace continues with a new,    *)
 (*                 independent combinator call; the machine starts afresh  *)
 (* gevent's AsyncResult is re-settable (set then set_exception keeps the   *)
@@ -100,9 +119,10 @@ VARIABLES acomb,   \* "WhenAll" | "WhenAny" | "Unwrap" | "ContinueWith" | "Map"
           adone,   \* completions in order: Seq([i, k, v])
           acall,   \* Len(adone) at the time of the call, -1 before the call
           aruns,   \* continuation runs / function applications: Seq([out, v])
-          aesc     \* TRUE: the combinator call raised, no result was handed out
+          aesc,    \* TRUE: the combinator call raised, no result was handed out
+          aregs    \* "Reentrant": registrations in order: Seq([src, kind, runs: Seq([out, v]), esc])
 
-avars == <<acomb, an, adone, acall, aruns, aesc>>
+avars == <<acomb, an, adone, acall, aruns, aesc, aregs>>
 
 Combs == {"WhenAll", "WhenAny", "Unwrap", "ContinueWith", "Map"}
 
@@ -113,6 +133,7 @@ AInit(comb, n) ==
   /\ acall = -1
   /\ aruns = <<>>
   /\ aesc = FALSE
+  /\ aregs = <<>>
 
 Called == acall >= 0
 DoneIdx == {adone[j].i : j \in DOMAIN adone}
@@ -132,7 +153,7 @@ SetCheck(i, k, v) ==
 
 SetUpd(i, k, v) ==
   /\ adone' = Append(adone, [i |-> i, k |-> k, v |-> v])
-  /\ UNCHANGED <<acomb, an, acall, aruns, aesc>>
+  /\ UNCHANGED <<acomb, an, acall, aruns, aesc, aregs>>
 
 NewCheck ==
   IF Called THEN "harness.newOnce"
@@ -140,7 +161,7 @@ NewCheck ==
   ELSE IF an < 1 THEN "harness.domain"
   ELSE "ok"
 
-NewUpd == acall' = Len(adone) /\ UNCHANGED <<acomb, an, adone, aruns, aesc>>
+NewUpd == acall' = Len(adone) /\ UNCHANGED <<acomb, an, adone, aruns, aesc, aregs>>
 
 \* ContinueWith: r = [ready, out, v];  Map: r = [arg, out, v]
 RunCheck(r) ==
@@ -155,7 +176,7 @@ RunCheck(r) ==
 
 RunUpd(r) ==
   /\ aruns' = Append(aruns, [out |-> r.out, v |-> r.v])
-  /\ UNCHANGED <<acomb, an, adone, acall, aesc>>
+  /\ UNCHANGED <<acomb, an, adone, acall, aesc, aregs>>
 
 \* ---------------------------------------------------------------- observation
 Pending(o) == ~o.ready
@@ -233,7 +254,12 @@ ObsUpd(o) == UNCHANGED avars
 \* r = [at, exn].  Evaluated, like every check, in the state before the event: for at = "new" that
 \* is the state after New and after whatever ran inside the call.
 EscCheck(r) ==
-  IF r.at \notin {"init", "set", "new", "obs"} THEN "harness.escAt"
+  IF r.at \notin {"init", "set", "new", "obs", "reg"} THEN "harness.escAt"
+  ELSE IF r.at = "reg"                                \* the call of registration r.c raised
+  THEN (IF r.c \notin DOMAIN aregs THEN "harness.escOutsideCall"
+        ELSE IF aregs[r.c].esc THEN "harness.escOutsideCall"
+        ELSE IF aregs[r.c].kind = "cw" /\ Len(aregs[r.c].runs) >= 1 THEN "C17.continueWith"
+        ELSE "ok")
   ELSE IF r.at # "new" THEN "ok"                      \* statement silent: unjudged
   ELSE IF ~Called \/ aesc THEN "harness.escOutsideCall"
   ELSE CASE acomb = "ContinueWith" ->
@@ -250,13 +276,79 @@ EscCheck(r) ==
 
 EscUpd(r) ==
   /\ aesc' = (aesc \/ r.at = "new")
+  /\ aregs' = IF r.at = "reg" THEN [aregs EXCEPT ![r.c].esc = TRUE] ELSE aregs
   /\ UNCHANGED <<acomb, an, adone, acall, aruns>>
+
+\* ---------------------------------------------------------------- caller mutates its list
+MutCheck(k) ==
+  IF ~Called THEN "harness.mutBeforeNew"
+  ELSE IF acomb \notin {"WhenAll", "WhenAny"} THEN "harness.mutComb"
+  ELSE "ok"
+MutUpd(k) == UNCHANGED avars      \* the inputs are those passed at the call
+
+\* ---------------------------------------------------------------- re-entrant registration
+\* Source 0 is AsyncResult.Complete(): complete from the start, value None (token -2 as function
+\* argument, observed as vk = "none").
+SrcDone(src) == src = 0 \/ src \in DoneIdx
+SrcRec(src) == IF src = 0 THEN [i |-> 0, k |-> "ok", v |-> -2] ELSE Rec(src)
+
+RegCheck(e) ==
+  IF acomb # "Reentrant" THEN "harness.regComb"
+  ELSE IF e.c # Len(aregs) + 1 THEN "harness.regOrder"
+  ELSE IF e.src \notin 0..an THEN "harness.inputRange"
+  ELSE IF e.kind \notin {"cw", "map", "unwrap"} THEN "harness.regKind"
+  ELSE IF e.by \notin 0..Len(aregs) THEN "harness.regBy"
+  ELSE "ok"
+RegUpd(e) ==
+  /\ aregs' = Append(aregs, [src |-> e.src, kind |-> e.kind, runs |-> <<>>, esc |-> FALSE])
+  /\ UNCHANGED <<acomb, an, adone, acall, aruns, aesc>>
+
+\* same sentences as RunCheck, per registration
+RunCCheck(e) ==
+  IF e.c \notin DOMAIN aregs THEN "harness.runUnregistered"
+  ELSE LET g == aregs[e.c] IN
+    CASE g.kind = "cw" ->
+           IF Len(g.runs) >= 1 \/ ~SrcDone(g.src) \/ ~e.ready THEN "C17.continueWith" ELSE "ok"
+      [] g.kind = "map" ->
+           IF ~SrcDone(g.src) THEN "C17.map"
+           ELSE IF SrcRec(g.src).k # "ok" \/ e.arg # SrcRec(g.src).v THEN "C17.map" ELSE "ok"
+      [] OTHER -> "harness.runEvent"
+RunCUpd(e) ==
+  /\ aregs' = [aregs EXCEPT ![e.c].runs = Append(@, [out |-> e.out, v |-> e.v])]
+  /\ UNCHANGED <<acomb, an, adone, acall, aruns, aesc>>
+
+OkNone(o) == o.ready /\ o.ok /\ o.exn = -1 /\ o.vk = "none"
+
+\* same sentences as CwOk / MapOk / UnwrapOk, per registration (functions here return a plain
+\* value or raise; sources complete with a plain value or a failure)
+ObsCOk(g, o) ==
+  CASE g.kind = "cw" ->
+         IF ~SrcDone(g.src) THEN Len(g.runs) = 0 /\ Pending(o)
+         ELSE /\ Len(g.runs) = 1
+              /\ IF g.runs[1].out = "ret" THEN OkInt(o, {g.runs[1].v}) ELSE FailedWith(o, {g.runs[1].v})
+    [] g.kind = "map" ->
+         IF ~SrcDone(g.src) THEN Len(g.runs) = 0 /\ Pending(o)
+         ELSE IF SrcRec(g.src).k = "fail" THEN Len(g.runs) = 0 /\ Failed(o)
+         ELSE /\ Len(g.runs) >= 1
+              /\ IF g.runs[1].out = "ret" THEN OkInt(o, {g.runs[1].v}) ELSE FailedWith(o, {g.runs[1].v})
+    [] g.kind = "unwrap" ->
+         IF g.src = 0 THEN OkNone(o) ELSE Matches(o, Resolve(g.src))
+
+ObsCCheck(e) ==
+  IF e.c \notin DOMAIN aregs THEN "harness.obsUnregistered"
+  ELSE IF aregs[e.c].esc THEN "harness.obsNoResult"
+  ELSE IF ObsCOk(aregs[e.c], e) THEN "ok"
+  ELSE CASE aregs[e.c].kind = "cw" -> "C17.continueWith"
+         [] aregs[e.c].kind = "map" -> "C17.map"
+         [] OTHER -> "C17.unwrap"
+ObsCUpd(e) == UNCHANGED avars
 
 \* Reset(comb, n): the trace goes on with a new, independent combinator call (thorough tier
 \* packs several cases into one process); the machine starts afresh.
-ResetCheck(comb, n) == IF comb \notin Combs THEN "harness.comb" ELSE "ok"
+ResetCheck(comb, n) == IF comb \notin Combs \cup {"Reentrant"} THEN "harness.comb" ELSE "ok"
 ResetUpd(comb, n) ==
   /\ acomb' = comb /\ an' = n /\ adone' = <<>> /\ acall' = -1 /\ aruns' = <<>> /\ aesc' = FALSE
+  /\ aregs' = <<>>
 
 SetEv(i, k, v) == SetCheck(i, k, v) = "ok" /\ SetUpd(i, k, v)
 New == NewCheck = "ok" /\ NewUpd
